@@ -97,6 +97,11 @@ def hook(nm, ctx, *a):
     rec(k="hook", name=nm, el=el, tag=tag, pos=pos, raised=raised)
     if nm == "before_scenario" and CFG.get("cont_by_hook"):
         a[0].continue_after_failed_step = bool(CFG.get("cont", False))
+    if CASE.get("hookcl") and nm in ("before_all", "after_all", "before_feature", "before_rule", "before_scenario", "after_scenario"):
+        # the hook registers a cleanup of its own in the current scope
+        def hook_cleanup(cid=500 + N[0]):
+            rec(k="cleanup", cid=cid, raised=False)
+        ctx.add_cleanup(hook_cleanup)
     for sk in CASE.get("skips", []):
         if sk[0] == nm and sk[1] == el:
             tgt = sk[2] if len(sk) > 2 else el
@@ -176,7 +181,7 @@ def run_cli(case, timeout=900):
                 fh.write(text)
         by_loc = [[["f%d.feature" % fi, line], el] for (fi, line), el in R.by_loc.items()]
         with open(os.path.join(d, "case.json"), "w") as fh:
-            json.dump({"flat": flat, "by_loc": by_loc, "fault": case.get("fault", [0, 0]), "fault_kind": case.get("fault_kind", "exc"), "typed": bool(prog.get("typed")), "cfg": {"cont": bool(cfg.get("cont")), "cont_by_hook": bool(cfg.get("cont_by_hook"))},
+            json.dump({"flat": flat, "by_loc": by_loc, "fault": case.get("fault", [0, 0]), "fault_kind": case.get("fault_kind", "exc"), "typed": bool(prog.get("typed")), "hookcl": bool(prog.get("hookcl")), "cfg": {"cont": bool(cfg.get("cont")), "cont_by_hook": bool(cfg.get("cont_by_hook"))},
                        "skips": [list(x) for x in (prog.get("skips") or [])]}, fh)
         with open(os.path.join(d, "verif_child.py"), "w") as fh:
             fh.write(CHILD)
